@@ -75,23 +75,30 @@ def stress(run, plan=None, errpaths=True):
             f3 = f
     summary = []
     nviol = 0
-    # corpus first: error paths of API functions that take the lock themselves (C13-F4)
-    if errpaths:
+    # corpus first: scenario modes of the driver
+    #  errpaths: error paths of API functions that take the lock themselves (C13-F4)
+    #  wakeup  : a call from another thread must wake the thread blocked in coap_io_process(COAP_IO_WAIT),
+    #            also after a timer has been pending once and expired (seeded change C13-s10)
+    scen = [("errpaths", "a failing API call leaves the global lock held: every other thread blocks for ever",
+             "failed_call_released_lock=1", 60),
+            ("wakeup", "a call from another thread does not wake the I/O thread blocked in "
+                       "coap_io_process(COAP_IO_WAIT): the call has no effect, the thread stays blocked",
+             "notifications=3", 90)] if errpaths else []
+    for mode, what, marker, tmo in scen:
         v0 = "base" if "base" in exes else sorted(exes)[0]
         try:
-            p = subprocess.run([exes[v0], "errpaths"], stdout=subprocess.PIPE, stderr=subprocess.PIPE, timeout=60)
+            p = subprocess.run([exes[v0], mode], stdout=subprocess.PIPE, stderr=subprocess.PIPE, timeout=tmo)
             out, rc = p.stdout.decode("latin-1"), p.returncode
         except subprocess.TimeoutExpired as e:
             out, rc = (e.stdout or b"").decode("latin-1"), -999
-        ok = rc == 0 and "errpaths ok" in out
-        run.count("stress errpaths", ok and "failed_call_released_lock=1" in out)
-        run.hist("kind", "stress-errpaths")
-        summary.append({"variant": v0, "mode": "errpaths", "ok": ok, "output": out.strip()[-300:]})
+        ok = rc == 0 and (mode + " ok") in out
+        run.count("stress " + mode, ok and marker in out)
+        run.hist("kind", "stress-" + mode)
+        summary.append({"variant": v0, "mode": mode, "ok": ok, "output": out.strip()[-300:]})
         if not ok:
             nviol += 1
-            run.violation("a failing API call leaves the global lock held: every other thread blocks for ever",
-                          "command: %s errpaths   (variant %s; see corpus/C13/errpaths.stress)\n\n%s\n" %
-                          (exes[v0], v0, out[-3000:]), tag="errpaths")
+            run.violation(what, "command: %s %s   (variant %s; see corpus/C13/%s.stress)\n\n%s\n" %
+                          (exes[v0], mode, v0, mode, out[-3000:]), tag=mode)
     for k, item in enumerate(plan):
         variant, secs, workers = item[:3]
         profile = item[3] if len(item) > 3 else 0
